@@ -665,6 +665,92 @@ Section Proofs.
       + exfalso. destruct C as [C|C]; apply C; apply Hothers; congruence.
   Qed.
 
+  (* ---------------------------------------------------------------- breaches detected before execution *)
+  (* the rules Process checks before it executes any transaction: header, proposer, txs root, body *)
+  Definition pre_exec_rule (i : N) : bool :=
+    existsb (N.eqb i) [1;2;4;5;6;7;8;9;10;11;12;20;21;22;23;30;31;32;33;34;35;36;37].
+
+  Definition pre_cond (cfg : config) (pv : pview) (parent : header) (b : block) (now : N) : Prop :=
+    let h := b_header b in let num := h_number parent + 1 in
+    h_features h = features_at cfg num /\ header_rules cfg parent h now /\
+    (exists s mep, proposer_rules cfg pv parent h s mep) /\
+    h_txs_root h = root_of_txs (b_txs b) /\ body_rules cfg num (h_features h) (b_txs b).
+
+  Lemma pre_cond_rules cfg pv parent st0 b now i : 0 < c_interval cfg ->
+    pre_cond cfg pv parent b now -> pre_exec_rule i = true -> rule_holds cfg pv parent st0 b now i.
+  Proof.
+    intros HT (Hf & Hh & (s & mep & Hp) & Hroot & Hb).
+    destruct Hh as (H1 & H2 & H3 & H4 & H5 & H6 & H7 & H8 & H9 & H10 & H11).
+    destruct Hp as (P1 & P2 & P3 & P4 & P5).
+    destruct Hb as (B1 & B2 & B3 & B4 & B5 & B6 & B7).
+    pose proof (find_me_addr _ _ _ P2) as Ha.
+    assert (TP : Catalogue.the_proposer pv b mep) by (exists s; auto).
+    assert (U : forall mep', Catalogue.the_proposer pv b mep' -> mep' = mep)
+      by (intros mep'; apply (the_proposer_unique pv b s mep mep' P1 P2)).
+    assert (R1 : rule_holds cfg pv parent st0 b now 1) by exact H1.
+    assert (R2 : rule_holds cfg pv parent st0 b now 2) by exact H2.
+    assert (R4 : rule_holds cfg pv parent st0 b now 4) by exact H4.
+    assert (R5 : rule_holds cfg pv parent st0 b now 5) by exact H5.
+    assert (R6 : rule_holds cfg pv parent st0 b now 6) by exact H6.
+    assert (R7 : rule_holds cfg pv parent st0 b now 7) by exact H7.
+    assert (R8 : rule_holds cfg pv parent st0 b now 8) by exact H8.
+    assert (R9 : rule_holds cfg pv parent st0 b now 9) by exact H9.
+    assert (R10 : rule_holds cfg pv parent st0 b now 10) by exact H10.
+    assert (R11 : rule_holds cfg pv parent st0 b now 11) by exact H11.
+    assert (R12 : rule_holds cfg pv parent st0 b now 12) by exact Hf.
+    assert (R20 : rule_holds cfg pv parent st0 b now 20) by (exists mep; exact TP).
+    assert (R21 : rule_holds cfg pv parent st0 b now 21).
+    { intros mep' T. apply U in T. subst mep'. rewrite Ha. apply (is_the_time_iff_owner _ _ _ _ _ _ _ _ HT P2) in P3. apply P3. }
+    assert (R22 : rule_holds cfg pv parent st0 b now 22).
+    { intros mep' T. apply U in T. subst mep'. exact P4. }
+    assert (R23 : rule_holds cfg pv parent st0 b now 23).
+    { intros Hpos s' bnf Hs Hl. rewrite P1 in Hs. inversion Hs; subst s'. exact (P5 Hpos _ Hl). }
+    assert (R30 : rule_holds cfg pv parent st0 b now 30) by exact Hroot.
+    assert (R31 : rule_holds cfg pv parent st0 b now 31) by exact B1.
+    assert (R32 : rule_holds cfg pv parent st0 b now 32) by exact B2.
+    assert (R33 : rule_holds cfg pv parent st0 b now 33) by exact B3.
+    assert (R34 : rule_holds cfg pv parent st0 b now 34) by exact B4.
+    assert (R35 : rule_holds cfg pv parent st0 b now 35) by exact B5.
+    assert (R36 : rule_holds cfg pv parent st0 b now 36) by exact B6.
+    assert (R37 : rule_holds cfg pv parent st0 b now 37) by exact B7.
+    clear - R1 R2 R4 R5 R6 R7 R8 R9 R10 R11 R12 R20 R21 R22 R23 R30 R31 R32 R33 R34 R35 R36 R37.
+    unfold pre_exec_rule. destruct i as [|p]; [discriminate|].
+    do 6 (try destruct p as [p|p|]); cbn; try discriminate; intros _; assumption.
+  Qed.
+
+  (* an `Other`-class rejection comes out of the transaction loop / reward hook: everything checked before held *)
+  Lemma other_class_after_pre_checks cfg pv parent st0 b now r : wf_gas parent b -> parent_sane cfg parent ->
+    process cfg pv parent st0 b now = Rejected State (Other r) -> pre_cond cfg pv parent b now.
+  Proof.
+    intros [Wg Wp] Sane. unfold Body.process, pre_cond.
+    destruct (N.eqb_spec (h_features (b_header b)) (features_at cfg (h_number parent + 1))) as [Ef|Ef]; cbn [negb]; [|discriminate].
+    destruct (validate_header cfg parent (b_header b) now) eqn:Eh;
+      try (intros E; inversion E; subst; apply (validate_header_class _ _ _ _ _ Sane) in Eh; contradiction); try discriminate.
+    apply (validate_header_accept_iff _ _ _ _ Wg Wp) in Eh.
+    destruct (validate_proposer cfg pv parent (b_header b)) as [ups|v] eqn:Ep.
+    2:{ intros E. inversion E; subst. apply validate_proposer_class in Ep. discriminate. }
+    apply validate_proposer_ok_iff in Ep. destruct Ep as (s & mep & Ep & _).
+    destruct (N.eqb_spec (h_txs_root (b_header b)) (root_of_txs (b_txs b))) as [Er|Er]; cbn [negb]; [|discriminate].
+    destruct (body_txs_check _ _ _ _) eqn:Eb; [discriminate|].
+    apply body_txs_check_iff, body_rules_iff in Eb. intros _.
+    split; [exact Ef|]. split; [exact Eh|]. split; [exists s, mep; exact Ep|]. split; [exact Er | exact Eb].
+  Qed.
+
+  (* a breach of ANY rule checked before execution is consensus-critical, whether or not the transactions would execute
+     (e.g. an unrecoverable origin, which also makes the runtime refuse the tx) — only the clock rule 3 is needed *)
+  Theorem pre_execution_breach_rejected_critical_lemma cfg pv parent st0 b now i :
+    0 < c_interval cfg -> wf_gas parent b -> parent_sane cfg parent ->
+    rule_holds cfg pv parent st0 b now 3 -> pre_exec_rule i = true -> ~ rule_holds cfg pv parent st0 b now i ->
+    exists r, process cfg pv parent st0 b now = Rejected State (Critical r).
+  Proof.
+    intros HT W Sane H3 Hpre Hi.
+    destruct (process cfg pv parent st0 b now) as [st2 rcs|v] eqn:Ep.
+    - exfalso. apply Hi. apply (accept_iff_rules_lemma _ _ _ _ _ _ HT W). exists st2, rcs. exact Ep.
+    - pose proof (process_reject_class _ _ _ _ _ _ _ Sane Ep) as C.
+      destruct v as [| |r|r|]; try contradiction; [exists r; reflexivity|].
+      exfalso. apply Hi. apply (pre_cond_rules _ _ _ _ _ _ _ HT (other_class_after_pre_checks _ _ _ _ _ _ _ W Sane Ep) Hpre).
+  Qed.
+
   (* a rejected block whose class is not critical names which rule failed *)
   Theorem rejected_not_accepting cfg pv parent st0 b now v : 0 < c_interval cfg -> wf_gas parent b ->
     process cfg pv parent st0 b now = Rejected State v -> ~ all_rules cfg pv parent st0 b now.
